@@ -6,6 +6,7 @@ statements cover truncation, bit flips, garbage, NUL bytes, invalid UTF-8, torn 
 and reordered fragments alike.  The reader is the skip-and-continue reader both flavours use.
 -/
 import Cacache.Lemmas.Index
+import Cacache.Lemmas.Record
 
 namespace Cacache.C06
 
@@ -54,13 +55,97 @@ theorem torn_tail_then_append (c : Codec R M) (L : c.Laws W) (b t : Bytes) (ht :
     simp [Codec.frame]
   rw [this, damage_contained c b t (c.enc r) ht, L.entries_enc r hr]
 
-/-- **No forgery.**  Every record a reader reports is the decoding of one line of the file: a
-lookup or listing can only return what some line, with a matching checksum, spells out. -/
+/-- **No forgery (generic).**  Every record a reader reports is the decoding of one line of the
+file.  This holds of ANY codec by the definition of `entries`; what "decoding" demands of the
+line — the checksum — is the concrete statement `no_forgery_cacache` below. -/
 theorem no_forgery (c : Codec R M) (b : Bytes) (r : R) (hr : r ∈ c.entries b) :
     ∃ l ∈ lines c.valid b, c.decLine l = some r := by
   unfold Codec.entries at hr
   obtain ⟨l, hl, hd⟩ := List.mem_filterMap.mp hr
   exact ⟨l, hl, hd⟩
+
+/-! ### the concrete codec: what a line must spell out -/
+
+theorem splitOn_single (sep : UInt8 → Bool) (b j : Bytes) (h : Bytes.splitOn sep b = [j]) :
+    b = j := by
+  induction b generalizing j with
+  | nil => simpa [Bytes.splitOn] using h.symm
+  | cons c t ih =>
+    have hu : Bytes.splitOn sep (c :: t) =
+        if sep c then [] :: Bytes.splitOn sep t
+        else match Bytes.splitOn sep t with
+          | [] => [[c]]
+          | l :: ls => (c :: l) :: ls := rfl
+    rw [hu] at h
+    split at h
+    · simp only [List.cons.injEq] at h
+      exact absurd h.2 (Rec.splitOn_ne_nil sep t)
+    · split at h
+      · rename_i he; exact absurd he (Rec.splitOn_ne_nil sep t)
+      · rename_i l ls he
+        simp only [List.cons.injEq] at h
+        obtain ⟨rfl, rfl⟩ := h
+        rw [ih l he]
+
+/-- A byte string that splits into exactly two pieces is the first piece, one separator, the
+second piece. -/
+theorem splitOn_pair (sep : UInt8 → Bool) (b h j : Bytes) (hs : Bytes.splitOn sep b = [h, j]) :
+    ∃ x, sep x = true ∧ b = h ++ x :: j := by
+  induction b generalizing h with
+  | nil => simp [Bytes.splitOn] at hs
+  | cons c t ih =>
+    have hu : Bytes.splitOn sep (c :: t) =
+        if sep c then [] :: Bytes.splitOn sep t
+        else match Bytes.splitOn sep t with
+          | [] => [[c]]
+          | l :: ls => (c :: l) :: ls := rfl
+    rw [hu] at hs
+    split at hs
+    · rename_i hc
+      simp only [List.cons.injEq] at hs
+      obtain ⟨rfl, ht⟩ := hs
+      exact ⟨c, hc, by rw [splitOn_single sep t j ht]; rfl⟩
+    · split at hs
+      · simp at hs
+      · rename_i l ls he
+        simp only [List.cons.injEq] at hs
+        obtain ⟨rfl, rfl⟩ := hs
+        obtain ⟨x, hx, rfl⟩ := ih l he
+        exact ⟨x, hx, rfl⟩
+
+/-- **What a bucket line must spell out to decode** (cacache's codec, any hash function `H`): if
+`decLine` accepts `line` with record `r`, the line is `hex(sha256(json)) ++ TAB ++ json` for a
+`json` text (free of tabs) that deserialises to `r`. -/
+theorem decLine_spells (H : Algo → Bytes → Bytes) (line : Bytes) (r : Rec)
+    (h : Rec.decLine H line = some r) :
+    ∃ json, line = Rec.checksum H json ++ TAB :: json ∧ Rec.decJson json = some r := by
+  unfold Rec.decLine at h
+  split at h
+  · rename_i hh j hs
+    split at h
+    · rename_i hc
+      have hc' : Rec.checksum H j = hh := by simpa using hc
+      obtain ⟨x, hx, hl⟩ := splitOn_pair _ line hh j hs
+      have : x = TAB := by simpa using hx
+      subst this
+      exact ⟨j, by rw [hc']; exact hl, h⟩
+    · cases h
+  · cases h
+
+/-- **No forgery (cacache's codec).**  Every record a lookup or listing can report from a bucket
+`b` is spelled out by one valid-UTF-8 line of `b` of the form `hex(sha256(json)) ++ TAB ++ json`
+whose `json` deserialises to exactly that record: nothing is reported that no checksummed line of
+the file says. -/
+theorem no_forgery_cacache (H : Algo → Bytes → Bytes) (b : Bytes) (r : Rec)
+    (hr : r ∈ (Rec.codec H).entries b) :
+    ∃ json, Line.ok (Rec.checksum H json ++ TAB :: json) ∈ lines Json.utf8Valid b ∧
+      Rec.decJson json = some r := by
+  obtain ⟨l, hl, hd⟩ := no_forgery (Rec.codec H) b r hr
+  cases l with
+  | invalid => cases hd
+  | ok s =>
+    obtain ⟨json, rfl, hj⟩ := decLine_spells H s r hd
+    exact ⟨json, hl, hj⟩
 
 /-- The stop-at-first-invalid-line reader (the pre-repair sync reader, kept in the model as
 `entriesStop` to state the difference) agrees with the skip-and-continue reader exactly when no
